@@ -258,9 +258,6 @@ def cell_attrs(attrs, bs):
     return out
 
 
-OFFSET0 = " at text offset 0"
-
-
 def row_chars(bs):
     """[(byte length, columns)] of the displayed characters of one canvas row."""
     from urwid import str_util
@@ -483,17 +480,16 @@ class C17(core.Check):
         "every line of truthful segments over 1- and 2-column characters, overlong or negatively padded "
         "(trim_line_keeps_wellformed, layout_keeps_attr_through_trim); subseg_shows_window (LayoutSegment.subseg of a "
         "text segment shows column by column exactly the window, the blank for half of a double-width character carrying "
-        "that character's attribute, except for the character at text offset 0); layout_cells (the per-COLUMN statement: "
+        "that character's attribute, the character at text offset 0 included); layout_cells (the per-COLUMN statement: "
         "every row is the bytes of a sequence of displayed characters, each column of a character - both columns of a "
         "double-width one - carries that character's attribute, padding and fill columns carry None); clip_keeps_attr / "
         "clip_columns_unchanged (clipping of rendered rows by TextCanvas.content(trim_left, cols)); fill_attr_compose / "
         "attrmap_replaces_exactly_listed / attrmap_focus_choice / nested_maps_compose (every widget tree of AttrMap, Pile, "
         "Columns over leaves); sgr_roundtrip (every AttrSpec with in-range colour numbers, every colour depth, "
         "bright-is-bold and bright-is-blink on/off); palette_resolves_full and palette_name_to_terminal (every history "
-        "of register_palette_entry / aliases / set_terminal_properties); undefined_name_defaults.  REFUTED with a witness "
-        "replayed on the implementation (proposed known finding): subseg_shows_window_full - the blank for the cut "
-        "double-width character at text offset 0 carries None ('elif s.offs:' reads offset 0 as no offset).  "
-        "Correspondence/oracle only: that the hand model matches the Python code (exact extracted-model comparison on "
+        "of register_palette_entry / aliases / set_terminal_properties); undefined_name_defaults.  Nothing is refuted or "
+        "partial (the four defects this check found were repaired: 0eea584, b5288ea, c165cd7, b2a34b1; their inputs are "
+        "regression cases in corpus/C17).  Correspondence/oracle only: that the hand model matches the Python code (exact extracted-model comparison on "
         "every case), widths/encodings of real characters, zero-width characters inside segments that are cut, "
         "Pile/Columns geometry.")
     level_note = (
@@ -1248,7 +1244,7 @@ class C17(core.Check):
                     else:
                         # a blank standing for (half of) the character at this offset carries its attribute
                         e_ = tags[s[1]] if 0 <= s[1] < len(tags) else "any"
-                        what_ = "blank for the cut character %d%s" % (s[1], OFFSET0 if s[1] == 0 else "")
+                        what_ = "blank for the cut character %d" % s[1]
                         exp += [(e_, what_)] * max(0, s[0])
                         ebytes += b" " * max(0, s[0])
                 if bs[:len(ebytes)] != ebytes or bs[len(ebytes):].strip(b" "):
@@ -1338,8 +1334,7 @@ class C17(core.Check):
                         (x == 0 and neg > 0 and virt[neg - 1][1] == ci) or
                         (x == w - 1 and neg + w < len(virt) and virt[neg + w][1] == ci))
                     return ["window: row %d column %d%s carries attribute %r, the character there has %r"
-                            % (y, x, (" (the visible half of the double-width character %d%s)"
-                                      % (ci, OFFSET0 if ci == 0 else "")) if half else "", g, e)]
+                            % (y, x, (" (the visible half of the double-width character %d)" % ci) if half else "", g, e)]
         return []
 
     def oracle_clip(self, case, res, st):
@@ -1606,8 +1601,7 @@ class C17(core.Check):
         return True
 
     def signature(self, case, msg):
-        # the offset-0 class is a separate signature: shrinking must not walk a violation into (or out of) it
-        return case["kind"] + ":" + re.sub(r"\d+", "N", msg)[:60] + ("#offset0" if OFFSET0 + ")" in msg else "")
+        return case["kind"] + ":" + re.sub(r"\d+", "N", msg)[:60]
 
     def distribution(self, case, res, dist):
         def inc(k):
